@@ -546,6 +546,10 @@ func (w c04Writer) WriteToRequest(req runtime.ClientRequest, _ strfmt.Registry) 
 		if err := json.Unmarshal([]byte(c.body), &v); err != nil {
 			panic("C04: body is not JSON")
 		}
+		if c.body == c04ZeroJSON {
+			// the same document as a typed value whose fields are all zero (what generated clients send)
+			return req.SetBodyParam(c04Zero{})
+		}
 		return req.SetBodyParam(v)
 	case "t":
 		return req.SetBodyParam(c.body)
@@ -916,6 +920,16 @@ func c04JSON(r *proto.Rng, depth int) interface{} {
 	}
 }
 
+// c04Zero is a body value all of whose fields are zero; c04ZeroJSON is its JSON document.
+type c04Zero struct {
+	Count   int    `json:"count"`
+	Enabled bool   `json:"enabled"`
+	Label   string `json:"label"`
+}
+
+// (keys in sorted order: the canonical rendering the case format asks for)
+const c04ZeroJSON = `{"count":0,"enabled":false,"label":""}`
+
 func c04JSONObject(r *proto.Rng, depth int) map[string]interface{} {
 	m := map[string]interface{}{}
 	for i, n := 0, r.Intn(4); i < n; i++ {
@@ -1070,6 +1084,9 @@ func c04GenCase(r *proto.Rng, tier string) *c04Case {
 	case "j":
 		b, _ := json.Marshal(c04JSONObject(r, 0))
 		c.body = string(b)
+		if r.Chance(1, 8) {
+			c.body = c04ZeroJSON
+		}
 	case "t":
 		c.body = r.Pick("", "hello", "\xc3\xa9t\xc3\xa9\n", "a\r\nb", "\xff\x00") + r.Bytes("ab \n", r.Intn(20))
 	case "b", "r":
